@@ -130,6 +130,46 @@ func checkData(d []byte) []kit.V {
 	if p := try(func() { txtar.Unquote(d) }); p != nil {
 		add("unquote-panic", fmt.Sprintf("Unquote(%q) panics: %v", d, p))
 	}
+	// The same data as the head of a larger buffer (a slice with spare capacity):
+	// the functions must give the same answers, leave their argument alone and
+	// write nothing behind it.
+	buf := make([]byte, len(d)+8)
+	copy(buf, d)
+	for i := len(d); i < len(buf); i++ {
+		buf[i] = 0xA5
+	}
+	intact := func() bool {
+		for _, b := range buf[len(d):] {
+			if b != 0xA5 {
+				return false
+			}
+		}
+		return bytes.Equal(buf[:len(d)], d)
+	}
+	if p := try(func() {
+		in := buf[:len(d)]
+		if nq2 := txtar.NeedsQuote(in); nq2 != nq {
+			add("needsquote-depends-on-capacity", fmt.Sprintf("NeedsQuote(%q) = %v for a slice of exact capacity, %v for the same bytes at the head of a larger buffer", d, nq, nq2))
+		}
+		if !intact() {
+			add("needsquote-writes-to-its-argument", fmt.Sprintf("NeedsQuote(%q) changed the caller's buffer: %q and the 8 bytes behind it are now %q", d, d, buf))
+			return
+		}
+		q2, qerr2 := txtar.Quote(in)
+		if (qerr2 == nil) != (qerr == nil) || !bytes.Equal(q2, q) {
+			add("quote-depends-on-capacity", fmt.Sprintf("Quote(%q) = %q, %v for a slice of exact capacity and %q, %v at the head of a larger buffer", d, q, qerr, q2, qerr2))
+		}
+		if !intact() {
+			add("quote-writes-to-its-argument", fmt.Sprintf("Quote(%q) changed the caller's buffer: now %q", d, buf))
+			return
+		}
+		txtar.Unquote(in)
+		if !intact() {
+			add("unquote-writes-to-its-argument", fmt.Sprintf("Unquote(%q) changed the caller's buffer: now %q", d, buf))
+		}
+	}); p != nil {
+		add("panic-with-spare-capacity", fmt.Sprintf("NeedsQuote/Quote/Unquote panic on %q given as the head of a larger buffer: %v", d, p))
+	}
 	return vs
 }
 
